@@ -129,6 +129,12 @@ def twins(g, rng):
             fam.append(({'a': {rule: v}}, 'type-twin'))
             fam.append(({'a': {'type': 'dict', 'valuesrules': {rule: v}}}, 'type-twin'))
             fam.append(({'a': {'anyof': [{rule: v}]}}, 'type-twin'))
+    # string twins: a string constraint and the list of its characters
+    for rule, val in (('type', 'string'), ('type', 'dict'), ('regex', 'ab'), ('rename', 'ab'), ('check_with', 'even')):
+        for v in (val, list(val), tuple(val)):
+            fam.append(({'a': {rule: v}}, 'type-twin'))
+            fam.append(({'a': {'type': 'dict', 'valuesrules': {rule: v}}} if rule != 'type' else {'a': {'valuesrules': {rule: v}}}, 'type-twin'))
+            fam.append(({'a': {'anyof': [{rule: v}]}} if rule != 'rename' else {'a': {'type': 'list', 'schema': {rule: v}}}, 'type-twin'))
     # context twins: the same rule set as bulk rule set, as *of definition, as field rules
     for rs in ({'default': 1}, {'coerce': 'to_int'}, {'rename': 'q'}, {'type': 'integer', 'default_setter': 'const5'}, {'purge_unknown': True},
                {'type': 'integer'}, {'min': 1, 'max': 2}):
@@ -153,6 +159,17 @@ def twins(g, rng):
     fam.append(({'a': {'anyof': [{'type': 'tiny'}, {'type': 'string'}]}}, 'subclass-only'))
     fam.append(({'a': {'type': 'dict', 'valuesrules': {'type': 'tiny'}}}, 'subclass-only'))
     return fam
+
+
+def same_shape(a, b):
+    """equal up to the leaf constraint: same keys along the way (the leaves may be 1 / True / 1.0 or 'ab' / ['a', 'b'])"""
+    if isinstance(a, dict) and isinstance(b, dict):
+        return list(a) == list(b) and all(same_shape(a[k], b[k]) for k in a)
+    if isinstance(a, dict) or isinstance(b, dict):
+        return False
+    if isinstance(a, list) and isinstance(b, list) and len(a) == len(b) and any(isinstance(x, dict) for x in a + b):
+        return all(same_shape(x, y) for x, y in zip(a, b))
+    return True
 
 
 def run(ctx):
@@ -219,6 +236,21 @@ def run(ctx):
                 dist["entry_" + h[1]] += 1
                 dist["class_" + h[0]] += 1
         check(history)
+    # systematically: every ordered pair of type-twins, on one class
+    tt = [p for p in pool_schemas if p[1] == 'type-twin']
+    for cname in ("Validator", "SubRule"):
+        for a in tt:
+            for b in tt:
+                if a is b or json.dumps(common.jval(a[0]), default=repr) == json.dumps(common.jval(b[0]), default=repr):
+                    continue
+                # same rule, same position: only the Python type of the constraint differs
+                ka, kb = json.dumps(common.jval(a[0]), default=repr), json.dumps(common.jval(b[0]), default=repr)
+                if len(ka) > 80 or abs(len(ka) - len(kb)) > 40:
+                    continue
+                if not same_shape(a[0], b[0]):
+                    continue
+                check([(cname, "constructor", a[0], doc, a[1]), (cname, "constructor", b[0], doc, b[1])])
+                dist["type_twin_pairs"] += 1
     # all ordered pairs of the twin families through the constructor, per class pair
     tw = [p for p in pool_schemas if p[1] != 'plain' and p[1] != 'corrupt']
     pairs = list(itertools.permutations(range(len(tw)), 2))
